@@ -25,7 +25,7 @@ ASSUMPTIONS = [
 ]
 PROBES = ["append_present_type_moves", "append_to_all_rejected", "delete_absent_rejected", "malformed_query_rejects_list", "all_collapses", "list_with_comment", "restart_via_owner", "structured_query_kept", "rejected_edit_of_member"]
 
-SIMPLE = ["print", "screen", "tv", "tty", "handheld", "projection", "braille", "aural", "embossed"]
+SIMPLE = ["print", "screen", "tv", "tty", "handheld", "projection", "braille", "embossed"]  # (the types the library knows; not 'aural')
 
 
 def config(rs, run, tier):
@@ -69,7 +69,13 @@ def canon(cu, text):
     finally:
         cu.log.raiseExceptions = mode
     if k != "ok" or not q.wellformed:
+        if text not in BAD_Q and text.strip() and text not in ("3d", "bogus"):
+            # well-formed by construction (the generator only writes known types and features): the library's own
+            # verdict is not taken for granted
+            raise Viol("wellformed_query_accepted", "wellformed-rejected", f"the media query {text!r} is rejected ({q!r})")
         return None
+    if text in BAD_Q:
+        raise Viol("malformed_query_rejected", "malformed-accepted", f"the malformed media query {text!r} is accepted as {q.mediaText!r}")
     return (q.mediaText, ref_simple(q.mediaText))
 
 
